@@ -7,6 +7,8 @@ import (
 
 	"reservoir/cache"
 	"reservoir/config"
+	"reservoir/utils/bytesize"
+	"reservoir/utils/duration"
 )
 
 // Obj is the metadata object cache-level monitors store: it names the key and version
@@ -50,6 +52,13 @@ func NewCache(ctx context.Context, o CacheOpts) (VCache, *config.Config) {
 	}
 	if o.Budget == 0 {
 		o.Budget = 75
+	}
+	// the configuration the janitor reads must agree with the constructor arguments, as in proxy.NewProxy
+	if cfg.Cache.MaxCacheSize.Read().Bytes() != o.Max {
+		cfg.Cache.MaxCacheSize.Overwrite(bytesize.ByteSize(o.Max))
+	}
+	if cfg.Cache.CleanupInterval.Read().Cast() != o.Interval {
+		cfg.Cache.CleanupInterval.Overwrite(duration.Duration(o.Interval))
 	}
 	switch o.Backend {
 	case "file":
